@@ -100,7 +100,7 @@ CHECKS['C08'] = {
     'level': 'proof',
     'explanation': 'The abstract DISTINCT memory is the sequence of remembered tuples; membership is pointwise value_eq. The contract of execute is stated over that view and over sem_eval of the projections.',
     'trusted': COMMON_TRUST + ['fnv::FnvHashSet contains/insert as a mathematical set over Eq classes of Vec<Value> (assumed; relies on C16 laws)'],
-    'unproved': ['extract_having_aggregates (visitor closure)', 'iter_mut loop headers of the PERCENTILE refresh'],
+    'unproved': ['ExpressionTree::visit (its node order is an uninterpreted function of the tree: rule E4-visit)', 'iter_mut loop headers of the PERCENTILE refresh'],
 }
 
 CHECKS['C07'] = {
@@ -130,11 +130,11 @@ CHECKS['C11'] = {
     'clause_prefixes': ['c11'],
     'technique': 'contract-based deductive verification (Verus): ExecutionEngine::execute dispatch, execution_config, ExecutionConfig constructors, AggregateExecutionEngine::execute extracted from /repo; induction lemma over the per-line contracts',
     'claim': 'Proof (dispatch, cell refresh, row assembly) that with {update,result} each line folds into the aggregation state exactly as with {update} alone and the table shown is the table of the state after that line, that {result} alone shows the table of the current state without changing it, and (lemma) that the state after k lines is therefore identical in follow and batch mode. Inside execute_result two parts are proved: the refresh of a PERCENTILE cell (the body of the inner loop, rule E3c) overwrites exactly that cell with the value the aggregator shows now and running aggregates touch nothing, and the row assembly builds the table from the per-group cells with a DISTINCT memory that is fresh for every table (unit aggresult). The columns (extract_result_rows_by_column) and HAVING (accept_group) are proved to be functions of the group cells; that the iter_mut loop headers of the refresh visit every aggregator once is assumed.',
-    'note': 'ASSUMED, not proved: the parts of AggregateExecutionEngine::execute_result that are not extracted (iter_mut loop headers, extract_having_aggregates) are functions of the aggregation state and do not modify it; result_wf (key arity, validated group-key columns) holds for the state. Non-aggregate statements: rows emitted for line k depend on line k and the DISTINCT memory only (select unit).',
+    'note': 'ASSUMED, not proved: the parts of AggregateExecutionEngine::execute_result that are not extracted (iter_mut loop headers) are functions of the aggregation state and do not modify it; result_wf (key arity, validated group-key columns) holds for the state. Non-aggregate statements: rows emitted for line k depend on line k and the DISTINCT memory only (select unit).',
     'level': 'proof',
     'explanation': 'Dispatch in ExecutionEngine::execute and AggregateExecutionEngine::execute (unit engine) over an abstract state machine (agg_step, agg_table); execute_result/refresh-cell (unit aggdispatch) and the row loop of execute_result (unit aggresult) discharge the part of "agg_table is a function of the state" that lies in extracted code.',
     'trusted': COMMON_TRUST + ['AggregateExecutionEngine::execute_update / execute_result as an abstract state machine (agg_step, agg_table)'],
-    'unproved': ['extract_having_aggregates (visitor closure)', 'iteration order and coverage of the iter_mut loops in execute_result'],
+    'unproved': ['ExpressionTree::visit (its node order is an uninterpreted function of the tree: rule E4-visit)', 'iteration order and coverage of the iter_mut loops in execute_result'],
 }
 
 CHECKS['C01'] = {
@@ -215,7 +215,7 @@ CHECKS['C04'] = {
     'level': 'proof',
     'explanation': 'sum_step etc. are the semantic steps; C15 lemmas lift them to order-insensitivity.',
     'trusted': COMMON_TRUST + ['std HashSet<Value> / BTreeMap / HashMap behaviour', 'float and interval arithmetic uninterpreted'],
-    'unproved': ['HAVING aggregates in update_aggregates (visit closure, stubbed branch)', 'extract_having_aggregates (visitor closure)', 'Vec<Value>::sort (sorted permutation stand-in)', 'iter_mut loop headers of execute_result'],
+    'unproved': ['ExpressionTree::visit (its node order is an uninterpreted function of the tree; the two visitor closures are verified as loops over that order: rule E4-visit)', 'Vec<Value>::sort (sorted permutation stand-in)', 'iter_mut loop headers of execute_result'],
 }
 CHECKS['C15'] = {
     'verus_units': ['aggregate', 'aggdispatch'],
